@@ -15,7 +15,7 @@ from .. import ref
 from ..lab import LFS, make_odb
 from ..world import World, digest_obj, stamp, write_file
 
-U = ["a", "b", "s/a", "s/é", "s/t/a"]
+U = ["a", "b", "s/a", "s/é", "s/t/a", "sx/a"]  # "s" is a string prefix of "sx"
 H = {1: ref.md5(b"h-one"), 2: ref.md5(b"h-two")}
 DECOS = ["none", "size", "exec", "inode-mtime", "nfiles-etag"]
 
@@ -132,8 +132,14 @@ def check_pure(entries, full_perms):
         obj = t.get_obj(_Odb(), tuple(rel.split("/")))
         if obj != ("FILE", H[entries[rel]]):
             viol.append(("get_obj-file-wrong", f"{rel} -> {obj}"))
-    if t.get_obj(_Odb(), ("nope",)) is not None and len(t.get_obj(_Odb(), ("nope",))) != 0:
-        viol.append(("get_obj-missing-prefix-not-empty", ""))
+    real = set(prefixes_of(entries)) | {tuple(r.split("/")) for r in entries}
+    cands = [("nope",), ("s", "zz"), ("sx", "zz")] + [(p[0][:-1],) for p in prefixes_of(entries) if len(p[0]) > 1]
+    for bogus in cands:
+        if bogus in real:
+            continue
+        r = t.get_obj(_Odb(), bogus)
+        if r is not None and not (isinstance(r, tuple)) and len(r) != 0:
+            viol.append(("get_obj-of-nonexistent-prefix-returns-entries", f"{bogus}: {len(r)} entries"))
     return viol, n, want_bytes
 
 
@@ -173,6 +179,7 @@ FS_TREES = {
     "small3": {"a": (b"a", 3), "s/b": (b"b", 5), "s/t/c": (b"c", 0)},
     "big3": {"L1": (b"1", BIG), "L2": (b"2", BIG), "L3": (b"3", BIG), "s/x": (b"x", 2)},
     "big2+dup": {"d/L1": (b"1", BIG), "d/L2": (b"1", BIG), "d/y": (b"y", 1), "z": (b"y", 1)},
+    "siblings": {"d/x": (b"x", 1), "d2/y": (b"y", 2), "d/e.bak/z": (b"z", 3), "d/e/w": (b"w", 4)},
 }
 
 _PERM = {"order": None, "used": 0, "sizes": []}
